@@ -17,7 +17,10 @@
            transaction id in the first / a continuation fragment, continuation flag missing.
    "coap"  CoAP batch.  Request item i carries transaction id i-1; the accessory answers item by item
            (control, tid, status, LE16 length, body); decode_all_pdus walks the concatenation with
-           offset += 5 + length and classifies every item.
+           offset += 5 + length and classifies every item.  The caller's list may name the same
+           characteristic more than once (cs.ids: the equality pattern of the requested ids, << >> =
+           all distinct): the _..._exit functions of the connection fold the result vector into a
+           dictionary keyed by characteristic (CoapMapItem).
 
    Content independent: bodies are byte ranges [lo, len]; header fields that the code copies
    (opcode, iid) are checked by the conformance harness, the model carries "as sent" flags.
@@ -53,7 +56,7 @@ vars == <<cs, pc, frags, eoff, kctr, air, acc, rd, co>>
 
 NullAcc == [next |-> 1, ctr |-> 0, phase |-> "idle", declared |-> 0, have |-> 0, got |-> << >>, ok |-> TRUE]
 NullRd  == [next |-> 1, status |-> 0, expected |-> 0, have |-> 0, got |-> << >>]
-NullCo  == [req |-> << >>, off |-> 0, idx |-> 0, res |-> << >>]
+NullCo  == [req |-> << >>, off |-> 0, idx |-> 0, res |-> << >>, mi |-> 1, map |-> << >>]
 
 \* ====================================================================== BLE request
 ReqInit(case) ==
@@ -185,10 +188,13 @@ BleResponse ==
         /\ pc = "more" => rd.next <= Len(cs.split)                        \* the reader never waits for a fragment that is not coming
 
 \* ====================================================================== CoAP batch
-\* cs = [part "coap", items]; item = [oc ("ok" | "err" | "tid" | "ctl"), s (status), len]
+\* cs = [part "coap", items, ids, api]; item = [oc ("ok" | "err" | "tid" | "ctl"), s (status), len];
+\* ids[i] = label of the characteristic item i asks for (equal labels = same characteristic), << >> = not mapped;
+\* api = "read" (every characteristic gets an entry) | "other" (write / subscribe / unsubscribe: only failures get one)
+NLabels(c) == IF c.ids = << >> THEN 0 ELSE CHOOSE m \in 1..Len(c.ids) : (\E i \in 1..Len(c.ids) : c.ids[i] = m) /\ \A i \in 1..Len(c.ids) : c.ids[i] <= m
 CoapInit(case) ==
     /\ cs = case /\ pc = "encode" /\ frags = << >> /\ eoff = 0 /\ kctr = 0 /\ air = << >>
-    /\ acc = NullAcc /\ rd = NullRd /\ co = NullCo
+    /\ acc = NullAcc /\ rd = NullRd /\ co = [NullCo EXCEPT !.map = [l \in 1..NLabels(case) |-> << >>]]
 
 CoapEncodeItem ==        \* encode_all_pdus: enumerate(zip(iids, data)) -> tid = index
     /\ cs.part = "coap" /\ pc = "encode" /\ Len(co.req) < Len(cs.items)
@@ -244,10 +250,35 @@ CoapAttribution ==
         /\ pc = "decode" => /\ Len(co.res) < Len(cs.items)
                             /\ co.off = ItemStart(cs, Len(co.res) + 1)
 
+\* ---------------------------------------------------------------------- result dictionary (connection.py _..._exit)
+\* one iteration of `for idx, result in enumerate(pdu_results)`: results[key of item idx] = ...; a read stores every
+\* result (a later item of the same characteristic overwrites), the other calls store failures only
+CoapMapItem ==
+    /\ cs.part = "coap" /\ pc = "done" /\ cs.ids # << >> /\ co.mi <= Len(co.res)
+    /\ LET r == co.res[co.mi]  L == cs.ids[co.mi] IN
+         co' = [co EXCEPT !.mi = @ + 1, !.map[L] = IF cs.api = "read" \/ r.k # "ok" THEN << r >> ELSE @]
+    /\ UNCHANGED <<cs, pc, frags, eoff, kctr, air, acc, rd>>
+CoapMapDone ==
+    /\ cs.part = "coap" /\ pc = "done" /\ cs.ids # << >> /\ co.mi > Len(co.res)
+    /\ pc' = "mapped"
+    /\ UNCHANGED <<cs, frags, eoff, kctr, air, acc, rd, co>>
+
+\* What the property demands of the dictionary.  Every DISTINCT requested characteristic gets the result of one of
+\* its OWN items - which one, when the same characteristic was asked twice with different outcomes, the property does
+\* not say (the code lets the later result of a read win and keeps any failure of the other calls); no characteristic
+\* gets the result of another one's item and none is missing.  For write / subscribe / unsubscribe "the result of a
+\* successful item" is: no entry.
+Own(c, L) == { i \in 1..Len(c.ids) : c.ids[i] = L }
+EntryAllowed(c, L, e) ==
+    IF e = << >> THEN c.api # "read" /\ \E i \in Own(c, L) : Expected(c, i).k = "ok"
+    ELSE \E i \in Own(c, L) : e[1] = Expected(c, i) /\ (c.api = "read" \/ e[1].k # "ok")
+IdAttributed(c, m) == Len(m) = NLabels(c) /\ \A L \in 1..NLabels(c) : EntryAllowed(c, L, m[L])
+CoapIdAttribution == (cs.part = "coap" /\ pc = "mapped") => IdAttributed(cs, co.map)
+
 \* ======================================================================
 Next == \/ EncFirst \/ EncCont \/ EncDone \/ Write \/ WriteDone \/ AccRecv \/ ReqDone
         \/ Read
-        \/ CoapEncodeItem \/ CoapEncodeDone \/ CoapDecodeItem
+        \/ CoapEncodeItem \/ CoapEncodeDone \/ CoapDecodeItem \/ CoapMapItem \/ CoapMapDone
 
 \* ====================================================================== bounded case spaces
 RECURSIVE Compositions(_)       \* all tuples of positive numbers summing to m
